@@ -146,6 +146,19 @@ func main() {
 	var cross int64
 	t0 := time.Now()
 
+	// 3. real chains (concurrently with the TLC part)
+	cov := &chainCov{}
+	var behs, steps int
+	var chainWall time.Duration
+	var chains sync.WaitGroup
+	chains.Add(1)
+	go func() {
+		defer chains.Done()
+		t1 := time.Now()
+		behs, steps = runChains(c, st, cov, judgeOpts{v2txn: true, supp: true})
+		chainWall = time.Since(t1)
+	}()
+
 	// 1+2. TLC: the bounded forests. The first slice also prints the concrete probes (leaf pre-image, index,
 	// proof terms) against which the harness's reading of the catalogue is checked. TLC works on the next
 	// slice while the previous one is replayed.
@@ -180,14 +193,8 @@ func main() {
 	c.Cov("tlc_concrete_probes_cross_checked", cross)
 	c.Cov("tlc_behaviours_replayed", nCases)
 	c.Cov("tlc_wall_s", tlcWall.Seconds())
-	synthProbes := st.probes
-	c.Cov("probes_on_tlc_forests", synthProbes)
 	c.Cov("tlc_part_wall_s", time.Since(t0).Seconds())
-
-	// 3. real chains
-	cov := &chainCov{}
-	t1 := time.Now()
-	behs, steps := runChains(c, st, cov, judgeOpts{v2txn: true, supp: true})
+	chains.Wait()
 	c.Cov("chain_behaviours", behs)
 	c.Cov("chain_steps", steps)
 	c.Cov("chain_states_probed", cov.states)
@@ -195,8 +202,9 @@ func main() {
 	c.Cov("chain_reverted_branch_elements_probed", cov.ghosts)
 	c.Cov("chain_stale_elements_probed", cov.stale)
 	c.Cov("chain_max_elements_held", cov.maxLive)
-	c.Cov("probes_on_chains", st.probes-synthProbes)
-	c.Cov("chain_part_wall_s", time.Since(t1).Seconds())
+	c.Cov("probes_on_tlc_forests", st.bySrc["tlc"])
+	c.Cov("probes_on_chains", st.bySrc["chain"])
+	c.Cov("chain_part_wall_s", chainWall.Seconds())
 
 	finish(c, st, int64(nCases+behs))
 }
